@@ -56,6 +56,11 @@ def placeIds (g : Nat → Nat × Nat) : List Bytes → Nat → List PIdent × Na
   | [], k => ([], k)
   | n :: ns, k => (identAt g (k + 1) n :: (placeIds g ns (k + 2)).1, (placeIds g ns (k + 2)).2)
 
+/-- the identifiers of a type path, the first one at index `k` -/
+def placePath (g : Nat → Nat × Nat) : List Bytes → Nat → List PIdent × Nat
+  | [], k => ([], k)
+  | a :: ns, k => (identAt g k a :: (placeIds g ns (k + 1)).1, (placeIds g ns (k + 1)).2)
+
 mutual
 def placeG (g : Nat → Nat × Nat) : Expr → Nat → PExpr × Nat
   | .null, i => (.null (g i).1, i + 1)
@@ -104,11 +109,44 @@ def placeG (g : Nat → Nat × Nat) : Expr → Nat → PExpr × Nat
     let a := placeG g e i
     let b := placeG g ix (a.2 + 3)
     (.index (g (b.2 + 1)).1 a.1 (some ⟨k, sp, (g (a.2 + 1)).1, (g b.2).1⟩) b.1, b.2 + 2)
+  | .caseE o c t ws el, i =>
+    let a := placeO g false o (i + 1)      -- the operand (if any) after CASE
+    let b := placeG g c (a.2 + 1)          -- WHEN at `a.2`
+    let d := placeG g t (b.2 + 1)          -- THEN at `b.2`
+    let w := placeW g ws d.2
+    let x := placeO g true el w.2          -- ELSE (if any) at `w.2`
+    (.caseE (g i).1 (g x.2).1 a.1 (g a.2).1 b.1 d.1 w.1 x.1, x.2 + 1)
+  | .ifE c t e, i =>
+    let a := placeG g c (i + 2)
+    let b := placeG g t (a.2 + 1)
+    let d := placeG g e (b.2 + 1)
+    (.ifE (g i).1 (g d.2).1 a.1 b.1 d.1, d.2 + 1)
+  | .cast e ns, i =>
+    let a := placeG g e (i + 2)            -- CAST ( e; AS at `a.2`
+    let b := placePath g ns (a.2 + 1)
+    (.cast (g i).1 (g b.2).1 a.1 b.1, b.2 + 1)
+  | .array .nil, i => (.array (g i).1 (g (i + 1)).1 .nil, i + 2)
+  | .array (.cons e es), i =>
+    let a := placeG g e (i + 1)
+    let b := placesG g es a.2
+    (.array (g i).1 (g b.2).1 (.cons a.1 b.1), b.2 + 1)
 /-- the `, element` pairs of an IN list, the first comma at index `i` -/
 def placesG (g : Nat → Nat × Nat) : Exprs → Nat → PExprs × Nat
   | .nil, i => (.nil, i)
   | .cons e es, i => (.cons (placeG g e (i + 1)).1 (placesG g es (placeG g e (i + 1)).2).1,
       (placesG g es (placeG g e (i + 1)).2).2)
+/-- the further `WHEN cond THEN result` clauses, the first WHEN at index `i` -/
+def placeW (g : Nat → Nat × Nat) : Whens → Nat → PWhens × Nat
+  | .nil, i => (.nil, i)
+  | .cons c t ws, i =>
+    let b := placeG g c (i + 1)
+    let d := placeG g t (b.2 + 1)
+    let w := placeW g ws d.2
+    (.cons (g i).1 b.1 d.1 w.1, w.2)
+/-- an optional expression from index `i`; `kw = true`: behind the keyword ELSE (whose position is stored) at index `i` -/
+def placeO (g : Nat → Nat × Nat) (kw : Bool) : OExpr → Nat → POExpr × Nat
+  | .none, i => (.none, i)
+  | .some e, i => (.some (if kw then (g i).1 else 0) (placeG g e (i + nb kw)).1, (placeG g e (i + nb kw)).2)
 end
 
 theorem placeIds_append (g : Nat → Nat × Nat) (ns : List Bytes) (n : Bytes) (k : Nat) :
@@ -171,12 +209,26 @@ structure PlaceAt (all : List Token) (f : Nat) : Prop where
         placeG (pe all) (erase (s.mk (tokAt all k).pos e)) i0 = (s.mk (tokAt all k).pos e, k + 1)
   lit : ∀ i p, parsePLit f (all.drop i) = .ok p → PlacedAt all i p
   paren : ∀ i p, parsePParenExpr f (all.drop i) = .ok p → PlacedAt all i p
+  caseE : ∀ i p, parsePCaseExpr f (all.drop i) = .ok p → PlacedAt all i p
+  caseLoop : ∀ i m rest, caseWhenLoopP f (all.drop i) = .ok (m, rest) →
+    ∃ j, placeW (pe all) (eraseW m) i = (m, j) ∧ rest = all.drop j
+  /-- `i` is the index of WHEN -/
+  caseWhen : ∀ i wp c t rest, parsePCaseWhen f (all.drop i) = .ok ((wp, c, t), rest) →
+    ∃ k j, wp = (tokAt all i).pos ∧ placeG (pe all) (erase c) (i + 1) = (c, k) ∧
+      placeG (pe all) (erase t) (k + 1) = (t, j) ∧ rest = all.drop j
+  /-- `i` is the index of ELSE -/
+  caseElse : ∀ i p, parsePCaseElse f (all.drop i) = .ok p →
+    ∃ j, placeG (pe all) (erase p.1) (i + 1) = (p.1, j) ∧ p.2 = all.drop j
+  ifE : ∀ i p, parsePIfExpr f (all.drop i) = .ok p → PlacedAt all i p
+  arr : ∀ i p, parsePSimpleArrayLiteral f (all.drop i) = .ok p → PlacedAt all i p
+  cast : ∀ i p, parsePCastExpr f (all.drop i) = .ok p → PlacedAt all i p
 
 theorem place_zero (all : List Token) : PlaceAt all 0 := by
   constructor <;> intros <;> simp_all [parsePExpr, parsePOr, orLoopP, parsePAnd, andLoopP, parsePNot, parsePComparison,
     parsePBetweenTail, parsePInCondition, inListLoopP, parsePBitOr, bitOrLoopP, parsePBitXor, bitXorLoopP, parsePBitAnd,
     bitAndLoopP, parsePBitShift, shiftLoopP, parsePAddSub, addLoopP, parsePMulDiv, mulLoopP, parsePUnary, parsePSelector,
-    selLoopP, parsePIndexSpecifier, parsePLit, parsePParenExpr]
+    selLoopP, parsePIndexSpecifier, parsePLit, parsePParenExpr, parsePCaseExpr, caseWhenLoopP, parsePCaseWhen,
+    parsePCaseElse, parsePIfExpr, parsePSimpleArrayLiteral, parsePCastExpr]
 
 /-- a binary loop step: the accumulator `e` (placed from `i0`, ending at `i`), one operator token, an operand placed
 from `i + 1` -/
@@ -303,6 +355,166 @@ theorem parsePLitIdent_ne {ts : List Token} {p : PExpr × List Token} (h : parse
       · cases h
       · simp only [Res.ok.injEq] at h; subst h; simp
 
+theorem parsePCase_ne {f : Nat} {ts : List Token} {p : PExpr × List Token} (h : parsePCaseExpr f ts = .ok p) :
+    p.1 ≠ .path [] := by
+  cases f with
+  | zero => simp [parsePCaseExpr] at h
+  | succ f =>
+    simp only [parsePCaseExpr] at h
+    split at h
+    · obtain ⟨o, _, h2⟩ := Res.bind_eq_ok.mp h
+      obtain ⟨w, _, h3⟩ := Res.bind_eq_ok.mp h2
+      obtain ⟨ws, _, h4⟩ := Res.bind_eq_ok.mp h3
+      obtain ⟨el, _, h5⟩ := Res.bind_eq_ok.mp h4
+      split at h5
+      · simp only [Res.ok.injEq] at h5; subst h5; simp
+      · cases h5
+    · cases h
+
+theorem parsePIf_ne {f : Nat} {ts : List Token} {p : PExpr × List Token} (h : parsePIfExpr f ts = .ok p) :
+    p.1 ≠ .path [] := by
+  cases f with
+  | zero => simp [parsePIfExpr] at h
+  | succ f =>
+    simp only [parsePIfExpr] at h
+    split at h
+    · split at h
+      · obtain ⟨c, _, h2⟩ := Res.bind_eq_ok.mp h
+        split at h2
+        · obtain ⟨t, _, h3⟩ := Res.bind_eq_ok.mp h2
+          split at h3
+          · obtain ⟨e, _, h4⟩ := Res.bind_eq_ok.mp h3
+            split at h4
+            · simp only [Res.ok.injEq] at h4; subst h4; simp
+            · cases h4
+          · cases h3
+        · cases h2
+      · cases h
+    · cases h
+
+theorem parsePCast_ne {f : Nat} {ts : List Token} {p : PExpr × List Token} (h : parsePCastExpr f ts = .ok p) :
+    p.1 ≠ .path [] := by
+  cases f with
+  | zero => simp [parsePCastExpr] at h
+  | succ f =>
+    simp only [parsePCastExpr] at h
+    split at h
+    · split at h
+      · obtain ⟨a, _, h2⟩ := Res.bind_eq_ok.mp h
+        split at h2
+        · obtain ⟨b, _, h3⟩ := Res.bind_eq_ok.mp h2
+          split at h3
+          · simp only [Res.ok.injEq] at h3; subst h3; simp
+          · cases h3
+        · cases h2
+      · cases h
+    · cases h
+
+/-! the type of a CAST: the identifiers of the path are placed like those of a `Path` -/
+
+theorem castTypeP_succ {f : Nat} {t : Token} {ts : List Token} (hk : t.kind = .ident)
+    (hs : TypeP.lookaheadSimpleType (t :: ts) = false) :
+    castTypeP (f + 1) (t :: ts) =
+      match TypeP.pathLoop f ts with
+      | .ok (ids, rest) => .ok (⟨t.pos, t.end, t.asString⟩ :: ids.map ofTyIdent, rest)
+      | .raise => .raise
+      | .outOfFuel => .outOfFuel := by
+  have hc : TypeP.cur (t :: ts) = .ident := by simp [TypeP.cur, TypeP.tk_ident, hk]
+  simp only [castTypeP, hc, hs, Bool.false_eq_true, if_false, TypeP.parseType, Bool.not_false, if_true,
+    TypeP.parseNamedType, TypeP.parseIdentOrPath, TypeP.parseIdent, TypeP.expect, TypeP.hd, List.headD_cons,
+    List.tail_cons, TypeP.Res.bind]
+  cases TypeP.pathLoop f ts with
+  | ok a => obtain ⟨ids, rest⟩ := a; simp [TypeP.Res.bind, ofTyIdent]
+  | raise => rfl
+  | outOfFuel => rfl
+
+theorem castTypeP_ok_inv {f : Nat} {ts : List Token} {path : List PIdent} {rest : List Token}
+    (h : castTypeP f ts = .ok (path, rest)) :
+    ∃ t tl, ts = t :: tl ∧ t.kind = .ident ∧ TypeP.lookaheadSimpleType ts = false := by
+  unfold castTypeP at h
+  split at h
+  · rename_i hc
+    obtain ⟨t, tl, rfl, ht⟩ := TypeP.cur_ne_eof hc (by decide)
+    split at h
+    · cases h
+    · rename_i hs
+      exact ⟨t, tl, rfl, TypeP.tk_ident.1 ht, by simpa using hs⟩
+  · cases h
+  · cases h
+  · cases h
+
+theorem pathLoop_placed {all : List Token} : ∀ (f j : Nat) (ids : List TypeP.Ident) (rest : List Token),
+    TypeP.pathLoop f (all.drop j) = .ok (ids, rest) →
+      ∃ k, placeIds (pe all) (ids.map (·.name)) j = (ids.map ofTyIdent, k) ∧ rest = all.drop k
+  | 0, _, _, _, h => by simp [TypeP.pathLoop] at h
+  | f + 1, j, ids, rest, h => by
+    simp only [TypeP.pathLoop] at h
+    split at h
+    · obtain ⟨⟨i1, ts1⟩, h1, h2⟩ := TypeP.Res.bind_eq_ok.1 h
+      obtain ⟨⟨is2, ts2⟩, h3, h4⟩ := TypeP.Res.bind_eq_ok.1 h2
+      simp only [TypeP.Res.ok.injEq, Prod.mk.injEq] at h4
+      obtain ⟨rfl, rfl⟩ := h4
+      simp only [TypeP.parseIdent, TypeP.expect] at h1
+      split at h1
+      · simp only [TypeP.Res.bind_ok, TypeP.Res.ok.injEq, Prod.mk.injEq] at h1
+        obtain ⟨rfl, rfl⟩ := h1
+        rw [tail_drop', tail_drop'] at h3
+        dsimp only at h3
+        obtain ⟨k, hk, hd⟩ := pathLoop_placed f (j + 1 + 1) is2 ts2 h3
+        refine ⟨k, ?_, hd⟩
+        simp only [List.map_cons, placeIds, hk]
+        simp only [identAt, ofTyIdent, pe, tokAt, Expr.hd, TypeP.hd, tail_drop']
+      · simp [TypeP.Res.bind] at h1
+    · simp only [TypeP.Res.ok.injEq, Prod.mk.injEq] at h
+      obtain ⟨rfl, rfl⟩ := h
+      exact ⟨j, by simp [placeIds], rfl⟩
+
+theorem castTypeP_placed {all : List Token} {f j : Nat} {path : List PIdent} {rest : List Token}
+    (h : castTypeP f (all.drop j) = .ok (path, rest)) :
+    ∃ k, placePath (pe all) (path.map (·.name)) j = (path, k) ∧ rest = all.drop k := by
+  obtain ⟨t, tl, hts, hk, hs⟩ := castTypeP_ok_inv h
+  have htl : tl = all.drop (j + 1) := by rw [← tail_drop', hts]; rfl
+  have ht : t = tokAt all j := by simp [tokAt, hts, hd]
+  cases f with
+  | zero =>
+    rw [hts] at h hs
+    have hc : TypeP.cur (t :: tl) = .ident := by simp [TypeP.cur, TypeP.tk_ident, hk]
+    simp [castTypeP, hc, hs, TypeP.parseType] at h
+  | succ f =>
+    rw [hts] at h hs
+    rw [castTypeP_succ hk hs] at h
+    cases hp : TypeP.pathLoop f tl with
+    | ok a =>
+      obtain ⟨ids, rest'⟩ := a
+      rw [hp] at h
+      simp only [Res.ok.injEq, Prod.mk.injEq] at h
+      obtain ⟨rfl, rfl⟩ := h
+      rw [htl] at hp
+      obtain ⟨k, hk', hd⟩ := pathLoop_placed f (j + 1) ids rest' hp
+      refine ⟨k, ?_, hd⟩
+      have e1 : (ids.map ofTyIdent).map (·.name) = ids.map (·.name) := by
+        simp [List.map_map, Function.comp_def, ofTyIdent]
+      simp only [List.map_cons, placePath, e1, hk']
+      simp only [identAt, ht, pe]
+    | raise => rw [hp] at h; cases h
+    | outOfFuel => rw [hp] at h; cases h
+
+theorem parsePArr_ne {f : Nat} {ts : List Token} {p : PExpr × List Token} (h : parsePSimpleArrayLiteral f ts = .ok p) :
+    p.1 ≠ .path [] := by
+  cases f with
+  | zero => simp [parsePSimpleArrayLiteral] at h
+  | succ f =>
+    simp only [parsePSimpleArrayLiteral] at h
+    split at h
+    · split at h
+      · simp only [Res.ok.injEq] at h; subst h; simp
+      · obtain ⟨a, _, h2⟩ := Res.bind_eq_ok.mp h
+        obtain ⟨b, _, h3⟩ := Res.bind_eq_ok.mp h2
+        split at h3
+        · simp only [Res.ok.injEq] at h3; subst h3; simp
+        · cases h3
+    · cases h
+
 theorem parsePLit_ne_path {f : Nat} {ts : List Token} {p : PExpr × List Token} (h : parsePLit f ts = .ok p) :
     p.1 ≠ .path [] := by
   cases f with
@@ -318,8 +530,11 @@ theorem parsePLit_ne_path {f : Nat} {ts : List Token} {p : PExpr × List Token} 
     · exact expectThenP_ne h (by intro t; simp)
     · exact expectThenP_ne h (by intro t; simp)
     · exact expectThenP_ne h (by intro t; simp)
+    · exact parsePCase_ne h
+    · exact parsePIf_ne h
+    · exact parsePCast_ne h
     · cases h
-    · cases h
+    · exact parsePArr_ne h
     · exact parsePParen_ne h
     · exact parsePLitIdent_ne h
     · cases h
@@ -664,8 +879,11 @@ theorem place_succ {all : List Token} {f : Nat} (ih : PlaceAt all f) : PlaceAt a
     · exact leaf_placed h (by simp [erase, placeG])
     · exact leaf_placed h (by simp [erase, placeG])
     · exact leaf_placed h (by simp [erase, placeG])
+    · exact ih.caseE i p h
+    · exact ih.ifE i p h
+    · exact ih.cast i p h
     · cases h
-    · cases h
+    · exact ih.arr i p h
     · exact ih.paren i p h
     · simp only [parsePLitIdent] at h
       split at h
@@ -690,6 +908,143 @@ theorem place_succ {all : List Token} {f : Nat} (ih : PlaceAt all f) : PlaceAt a
         exact ⟨k + 1, by simp [erase, placeG, hk], by simp⟩
       · cases h2
       · cases h2
+  caseE := by
+    intro i p h; simp only [parsePCaseExpr] at h
+    split at h
+    · obtain ⟨o, ho, h2⟩ := Res.bind_eq_ok.mp h
+      obtain ⟨⟨⟨wp, c, t⟩, r1⟩, hw, h3⟩ := Res.bind_eq_ok.mp h2
+      obtain ⟨⟨ws, r2⟩, hl, h4⟩ := Res.bind_eq_ok.mp h3
+      obtain ⟨el, he, h5⟩ := Res.bind_eq_ok.mp h4
+      have hO : ∃ j, placeO (pe all) false (eraseO o.1) (i + 1) = (o.1, j) ∧ o.2 = all.drop j := by
+        rw [tail_drop'] at ho
+        split at ho
+        · simp only [Res.ok.injEq] at ho; subst ho; exact ⟨i + 1, by simp [eraseO, placeO], rfl⟩
+        · obtain ⟨q, hq, h6⟩ := Res.bind_eq_ok.mp ho
+          obtain ⟨k, hk, hdk⟩ := ih.expr _ q hq
+          simp only [Res.ok.injEq] at h6; subst h6
+          exact ⟨k, by simp [eraseO, placeO, nb, hk], hdk⟩
+      obtain ⟨j1, hj1, hd1⟩ := hO
+      rw [hd1] at hw
+      obtain ⟨k, j2, hwp, hc, ht, hd2⟩ := ih.caseWhen j1 wp c t r1 hw
+      subst hd2
+      obtain ⟨j3, hj3, hd3⟩ := ih.caseLoop j2 ws r2 hl
+      subst hd3
+      have hE : ∃ j, placeO (pe all) true (eraseO el.1) j3 = (el.1, j) ∧ el.2 = all.drop j := by
+        dsimp only at he
+        split at he
+        · obtain ⟨q, hq, h6⟩ := Res.bind_eq_ok.mp he
+          obtain ⟨k', hk', hdk'⟩ := ih.caseElse j3 q hq
+          simp only [Res.ok.injEq] at h6; subst h6
+          exact ⟨k', by simp [eraseO, placeO, nb, hk'], hdk'⟩
+        · simp only [Res.ok.injEq] at he; subst he; exact ⟨j3, by simp [eraseO, placeO], rfl⟩
+      obtain ⟨j4, hj4, hd4⟩ := hE
+      dsimp only at h5
+      rw [hd4] at h5
+      split at h5
+      · simp only [Res.ok.injEq] at h5; subst h5
+        exact ⟨j4 + 1, by simp [erase, placeG, hj1, hwp, hc, ht, hj3, hj4], by simp [hd4]⟩
+      · cases h5
+    · cases h
+  caseLoop := by
+    intro i m rest h; simp only [caseWhenLoopP] at h
+    split at h
+    · obtain ⟨⟨⟨wp, c, t⟩, r1⟩, hw, h2⟩ := Res.bind_eq_ok.mp h
+      obtain ⟨k, j, hwp, hc, ht, hd⟩ := ih.caseWhen i wp c t r1 hw
+      subst hd
+      obtain ⟨⟨m', rest'⟩, hq, h3⟩ := Res.bind_eq_ok.mp h2
+      obtain ⟨l, hl, hdl⟩ := ih.caseLoop j m' rest' hq
+      simp only [Res.ok.injEq, Prod.mk.injEq] at h3
+      obtain ⟨rfl, rfl⟩ := h3
+      exact ⟨l, by simp [eraseW, placeW, hwp, hc, ht, hl], hdl⟩
+    · simp only [Res.ok.injEq, Prod.mk.injEq] at h
+      obtain ⟨rfl, rfl⟩ := h
+      exact ⟨i, by simp [eraseW, placeW], rfl⟩
+  caseWhen := by
+    intro i wp c t rest h; simp only [parsePCaseWhen] at h
+    split at h
+    · obtain ⟨q, hq, h2⟩ := Res.bind_eq_ok.mp h
+      rw [tail_drop'] at hq
+      obtain ⟨k, hk, hdk⟩ := ih.expr _ q hq
+      rw [hdk] at h2
+      split at h2
+      · obtain ⟨r, hr, h3⟩ := Res.bind_eq_ok.mp h2
+        rw [tail_drop'] at hr
+        obtain ⟨j, hj, hdj⟩ := ih.expr _ r hr
+        simp only [Res.ok.injEq, Prod.mk.injEq] at h3
+        obtain ⟨⟨rfl, rfl, rfl⟩, rfl⟩ := h3
+        exact ⟨k, j, by simp, hk, hj, hdj⟩
+      · cases h2
+    · cases h
+  caseElse := by
+    intro i p h; simp only [parsePCaseElse] at h
+    split at h
+    · rw [tail_drop'] at h
+      exact ih.expr _ p h
+    · cases h
+  ifE := by
+    intro i p h; simp only [parsePIfExpr] at h
+    split at h
+    · split at h
+      · obtain ⟨c, hc, h2⟩ := Res.bind_eq_ok.mp h
+        rw [tail_drop', tail_drop'] at hc
+        obtain ⟨k1, hk1, hd1⟩ := ih.expr _ c hc
+        rw [hd1] at h2
+        split at h2
+        · obtain ⟨t, ht, h3⟩ := Res.bind_eq_ok.mp h2
+          rw [tail_drop'] at ht
+          obtain ⟨k2, hk2, hd2⟩ := ih.expr _ t ht
+          rw [hd2] at h3
+          split at h3
+          · obtain ⟨e, he, h4⟩ := Res.bind_eq_ok.mp h3
+            rw [tail_drop'] at he
+            obtain ⟨k3, hk3, hd3⟩ := ih.expr _ e he
+            rw [hd3] at h4
+            split at h4
+            · simp only [Res.ok.injEq] at h4; subst h4
+              exact ⟨k3 + 1, by simp [erase, placeG, hk1, hk2, hk3], by simp⟩
+            · cases h4
+          · cases h3
+        · cases h2
+      · cases h
+    · cases h
+  cast := by
+    intro i p h; simp only [parsePCastExpr] at h
+    split at h
+    · split at h
+      · obtain ⟨q, hq, h2⟩ := Res.bind_eq_ok.mp h
+        rw [tail_drop', tail_drop'] at hq
+        obtain ⟨k1, hk1, hd1⟩ := ih.expr _ q hq
+        rw [hd1] at h2
+        split at h2
+        · obtain ⟨⟨path, r⟩, ht, h3⟩ := Res.bind_eq_ok.mp h2
+          rw [tail_drop'] at ht
+          obtain ⟨k2, hk2, hd2⟩ := castTypeP_placed ht
+          subst hd2
+          split at h3
+          · simp only [Res.ok.injEq] at h3; subst h3
+            exact ⟨k2 + 1, by simp [erase, placeG, hk1, hk2], by simp⟩
+          · cases h3
+        · cases h2
+      · cases h
+    · cases h
+  arr := by
+    intro i p h; simp only [parsePSimpleArrayLiteral] at h
+    split at h
+    · split at h
+      · simp only [Res.ok.injEq] at h; subst h
+        exact ⟨i + 2, by simp [erase, erases, placeG], by simp⟩
+      · obtain ⟨q, hq, h2⟩ := Res.bind_eq_ok.mp h
+        rw [tail_drop'] at hq
+        obtain ⟨k, hk, hdk⟩ := ih.expr _ q hq
+        obtain ⟨⟨m, rest'⟩, hm, h3⟩ := Res.bind_eq_ok.mp h2
+        rw [hdk] at hm
+        obtain ⟨l, hl, hdl⟩ := ih.inList k m rest' hm
+        subst hdl
+        split at h3
+        · simp only [Res.ok.injEq] at h3; subst h3
+          exact ⟨l + 1, by simp [erase, erases, placeG, hk, hl], by simp⟩
+        · cases h3
+    · cases h
 
 theorem place_all (all : List Token) : ∀ f, PlaceAt all f
   | 0 => place_zero all
